@@ -76,6 +76,18 @@ func (te *TypeEnv) FieldLoc(t types.Type, i int, ref Term) *Loc {
 	if te.isAggregate(ft) {
 		return &Loc{Kind: "obj", Base: te.subObj(t, i, ref), Typ: ft}
 	}
+	if pt := derefType(ft); pt != nil {
+		if n, ok := types.Unalias(pt).(*types.Named); ok {
+			switch qualName(n) {
+			case "sync.Mutex", "sync.RWMutex":
+				// fields holding a pointer to a mutex are set at construction and never reassigned (listed assumption):
+				// unknown calls do not change which mutex an object uses
+				if te.immutable != nil {
+					te.immutable[te.fieldHeap(t, i)] = true
+				}
+			}
+		}
+	}
 	return &Loc{Kind: "field", Base: ref, Heap: te.fieldHeap(t, i), Typ: ft}
 }
 
